@@ -116,6 +116,16 @@ impl<R: Read + Seek> ReadBox<&mut R> for MetaBox {
             // Get box header.
             let header = BoxHeader::read(reader)?;
             let BoxHeader { name, size: s } = header;
+            if s > size {
+                return Err(Error::InvalidData(
+                    "meta box contains a box with a larger size than it",
+                ));
+            }
+            if s == 0 {
+                return Err(Error::InvalidData(
+                    "meta box contains a box with size 0",
+                ));
+            }
 
             match name {
                 BoxType::HdlrBox => {
@@ -146,6 +156,16 @@ impl<R: Read + Seek> ReadBox<&mut R> for MetaBox {
                     // Get box header.
                     let header = BoxHeader::read(reader)?;
                     let BoxHeader { name, size: s } = header;
+                    if s > size {
+                        return Err(Error::InvalidData(
+                            "meta box contains a box with a larger size than it",
+                        ));
+                    }
+                    if s == 0 {
+                        return Err(Error::InvalidData(
+                            "meta box contains a box with size 0",
+                        ));
+                    }
 
                     match name {
                         BoxType::IlstBox => {
@@ -169,12 +189,27 @@ impl<R: Read + Seek> ReadBox<&mut R> for MetaBox {
                     // Get box header.
                     let header = BoxHeader::read(reader)?;
                     let BoxHeader { name, size: s } = header;
+                    if s > size {
+                        return Err(Error::InvalidData(
+                            "meta box contains a box with a larger size than it",
+                        ));
+                    }
+                    if s == 0 {
+                        return Err(Error::InvalidData(
+                            "meta box contains a box with size 0",
+                        ));
+                    }
 
                     match name {
                         BoxType::HdlrBox => {
                             skip_box(reader, s)?;
                         }
                         _ => {
+                            if s < HEADER_SIZE {
+                                return Err(Error::InvalidData(
+                                    "meta box contains a box smaller than its header",
+                                ));
+                            }
                             let mut box_data = vec![0; (s - HEADER_SIZE) as usize];
                             reader.read_exact(&mut box_data)?;
 
